@@ -59,6 +59,8 @@ def run(rep, tier, seed):
         doc = gen.document(rng, depth=rng.choice([2, 3, 3, 4]), strish=0.65)
         add(ruledrv.rule_recipe(rng, doc), doc, rng.choice(["raw", "Data"]))
     ruledrv.judge(rep, events, recipes, ruledrv.default_key)
+    from harness import repotrace
+    repotrace.judge(rep, "ruletest_proj", "Trace_Rule", lambda i: ruledrv.blank(i, "ruletest_proj"))
     for e in events[:: max(1, len(events) // 3)][:3]:
         rep.sample({"src": recipes[e["id"]], "outcome": e["outcome"], "valid": e["valid"], "nfail": e["nfail"]})
     rep.rule = (f"leg B: {len(paths)} small paths x {len(docs)} documents x condition trees (and/or/xor shapes) + seeded random "
